@@ -7,8 +7,8 @@ import subprocess
 import vlib
 from pipes.vector import concat
 
-PATH_OPS = {"ctor_target"}           # the only operation used to *reach* a state
-S0 = {"f": {"e": 0, "t": 0, "c": 0}, "g": {"e": 0, "t": 0, "c": 0}}
+PATH_OPS = {"ctor_target", "set_small"}           # the only operation used to *reach* a state
+S0 = {"f": {"e": 0, "t": 0, "c": 0}, "g": {"e": 0, "t": 0, "c": 0}, "h": {"e": 0, "t": 0, "c": 0}}
 
 PRELUDE = {
     "etl": "#include <etl/functional.hpp>\n#include <etl/tuple.hpp>\n#include <etl/utility.hpp>\n#include <utility>\nnamespace L = etl;\n",
@@ -88,7 +88,7 @@ def model(tier, rep):
         for _ in range(ln):
             t = adj[cur][rng.randrange(len(adj[cur]))]
             w.append(_call(t))
-            if t["op"] in ("ctor_move", "assign_move", "ctor_move_small", "ctor_copy_small"):
+            if t["op"] in ("ctor_move", "assign_move", "ctor_move_small", "assign_move_small"):
                 break
             cur = _key(t, "post")
         walks.append(w)
